@@ -67,6 +67,7 @@ type exch struct {
 	B string `json:"b"`           // pass mutate reqerr reserr botherr skip hijackreq hijackres
 	O string `json:"o"`           // upstream outcome: ok dialfail drop none
 	N int    `json:"n,omitempty"` // POST body size
+	U bool   `json:"u,omitempty"` // a hijacking modifier leaves unflushed bytes in the bufio.Writer it was handed
 	A bool   `json:"a,omitempty"` // the request modifier also marks the exchange as an API request (Context.APIRequest)
 	E string `json:"e,omitempty"` // shape of the modifier error text: "" one line | multi (two errors joined by a line break) | quoted
 }
@@ -74,6 +75,9 @@ type exch struct {
 type connSpec struct {
 	Mode string `json:"mode"` // plain | connect | mitm | mitmclear
 	Ex   []exch `json:"ex"`
+	// SwapAt (cases with swap): the connection idles before exchange SwapAt until the
+	// harness has replaced the proxy's modifier pair (SetRequestModifier/SetResponseModifier).
+	SwapAt int `json:"swap_at,omitempty"`
 }
 
 type c02Case struct {
@@ -82,8 +86,10 @@ type c02Case struct {
 	Stream    string     `json:"stream"`
 	MITM      bool       `json:"mitm"`
 	Transport string     `json:"transport"`
-	RT        string     `json:"rt,omitempty"`  // "" = *http.Transport, "clone" = request-cloning wrapper around one
-	Lst       string     `json:"lst,omitempty"` // "" = plain listener, "shaped" = trafficshape.Listener
+	RT        string     `json:"rt,omitempty"`   // "" = *http.Transport, "clone" = request-cloning wrapper around one
+	Lst       string     `json:"lst,omitempty"`  // "" = plain listener, "shaped" = trafficshape.Listener
+	Swap      bool       `json:"swap,omitempty"` // the modifier pair is replaced once, while every connection is idle at its swap point
+	Down      bool       `json:"down,omitempty"` // blind CONNECTs go through a downstream proxy (SetDownstreamProxy)
 	Conns     []connSpec `json:"conns"`
 }
 
@@ -120,7 +126,77 @@ func pickOutcome(rng *rand.Rand) string {
 	return "drop"
 }
 
+// matrixCase returns the fixed cases every batch runs first: each hijack site
+// (request / response side; plain, blind CONNECT incl. the 502 path, MITM
+// CONNECT, decrypted and cleartext tunnelled requests; plain and shaped
+// listener; with and without an unflushed tail), the downstream-proxy route
+// and a modifier swap. They do not depend on a lucky draw.
+func matrixCase(stream, tag string, idx int, flip bool) (c02Case, bool) {
+	c := c02Case{Kind: "c02", Idx: idx, Stream: stream, Transport: "pipe"}
+	ci := 0
+	conn := func(mode string, swapAt int, ex ...exch) {
+		for i := range ex {
+			ex[i].X = fmt.Sprintf("%sk%dc%de%d", tag, idx, ci, i)
+			if ex[i].B == "hijackreq" {
+				ex[i].U = ex[i].U != flip
+			} else if ex[i].B == "hijackres" {
+				ex[i].U = ex[i].U != flip
+			}
+		}
+		c.Conns = append(c.Conns, connSpec{Mode: mode, Ex: ex, SwapAt: swapAt})
+		ci++
+	}
+	g := func(b, o string) exch { return exch{M: "GET", B: b, O: o} }
+	cn := func(b, o string) exch { return exch{M: "CONNECT", B: b, O: o} }
+	u := func(e exch) exch { e.U = true; return e }
+	switch idx {
+	case 1:
+		conn("plain", 0, g("hijackreq", "none"))
+		conn("plain", 0, g("pass", "ok"), g("hijackres", "ok"))
+		conn("plain", 0, u(g("hijackres", "dialfail")))
+		conn("connect", 0, u(cn("hijackreq", "none")))
+		conn("connect", 0, cn("hijackres", "ok"))
+		conn("connect", 0, g("pass", "ok"), cn("hijackres", "dialfail"))
+	case 2, 3:
+		c.MITM = true
+		if idx == 3 {
+			c.Lst = "shaped"
+		}
+		conn("mitm", 0, cn("hijackreq", "none"))
+		conn("mitm", 0, u(cn("hijackres", "none")))
+		conn("mitm", 0, cn("pass", "none"), u(g("hijackreq", "none")))
+		conn("mitm", 0, cn("pass", "none"), g("pass", "ok"), g("hijackres", "ok"))
+		conn("mitm", 0, cn("pass", "none"), u(g("hijackres", "drop")))
+		conn("mitmclear", 0, cn("pass", "none"), g("hijackreq", "none"))
+		conn("mitmclear", 0, cn("pass", "none"), u(g("hijackres", "ok")))
+	case 4:
+		c.Down, c.RT = true, "clone"
+		conn("connect", 0, cn("pass", "ok"))
+		conn("connect", 0, g("pass", "ok"), cn("reserr", "ok"))
+		conn("connect", 0, cn("hijackres", "ok"))
+		conn("plain", 0, g("pass", "ok"), g("reqerr", "ok"))
+	case 5:
+		c.Swap, c.MITM = true, flip
+		conn("plain", 2, g("pass", "ok"), g("mutate", "ok"), g("pass", "ok"), g("reserr", "ok"))
+		conn("plain", 0, g("pass", "ok"), g("skip", "none"))
+		if c.MITM {
+			conn("mitm", 2, cn("pass", "none"), g("pass", "ok"), g("pass", "ok"), g("botherr", "ok"))
+			conn("mitmclear", 1, cn("pass", "none"), g("pass", "ok"), g("pass", "drop"))
+		} else {
+			conn("connect", 1, g("pass", "ok"), cn("pass", "dialfail"), g("pass", "ok"), cn("pass", "ok"))
+			conn("plain", 3, g("pass", "dialfail"), g("pass", "ok"), g("pass", "ok"), g("pass", "ok"))
+		}
+	default:
+		return c, false
+	}
+	return c, true
+}
+
 func genCase(rng *rand.Rand, stream string, idx int, race bool) c02Case {
+	tag0 := strings.NewReplacer("-", "", "mix", "m", "race", "r", "c02", "").Replace(stream)
+	if mc, ok := matrixCase(stream, tag0, idx, rng.Intn(2) == 0); ok {
+		return mc
+	}
 	c := c02Case{Kind: "c02", Idx: idx, Stream: stream, MITM: rng.Intn(2) == 0, Transport: "pipe"}
 	if !race && rng.Intn(6) == 0 {
 		c.Transport = "tcp"
@@ -132,6 +208,12 @@ func genCase(rng *rand.Rand, stream string, idx int, race bool) c02Case {
 	if rng.Intn(3) == 0 {
 		c.Lst = "shaped"
 	}
+	if !c.MITM && rng.Intn(5) == 0 {
+		// blind CONNECTs through a downstream proxy; the round tripper is the
+		// wrapper, so that SetDownstreamProxy only affects the CONNECT route
+		c.Down, c.RT = true, "clone"
+	}
+	c.Swap = rng.Intn(5) == 0
 	errKind := func(b string) string {
 		if b != "reqerr" && b != "reserr" && b != "botherr" {
 			return ""
@@ -199,7 +281,7 @@ func genCase(rng *rand.Rand, stream string, idx int, race bool) c02Case {
 				if rng.Intn(100) < 45 || i == nex-1 {
 					e := exch{X: newX(), M: "CONNECT", B: pickBeh(rng, allowHij, false), O: "ok"}
 					e.E = errKind(e.B)
-					if rng.Intn(2) == 0 && i != nex-1 {
+					if rng.Intn(2) == 0 && i != nex-1 && !c.Down {
 						e.O = "dialfail"
 					}
 					if e.B == "hijackreq" {
@@ -229,6 +311,14 @@ func genCase(rng *rand.Rand, stream string, idx int, race bool) c02Case {
 				cs.Ex = cs.Ex[:i+1]
 				break
 			}
+		}
+		for i := range cs.Ex {
+			if strings.HasPrefix(cs.Ex[i].B, "hijack") && rng.Intn(2) == 0 {
+				cs.Ex[i].U = true
+			}
+		}
+		if c.Swap {
+			cs.SwapAt = rng.Intn(len(cs.Ex) + 1)
 		}
 		c.Conns = append(c.Conns, cs)
 	}
@@ -310,6 +400,8 @@ type connOut struct {
 	hij     *hijState
 	cl      *modx.Client
 	harness string // harness-level failure (inconclusive)
+	// swappedBefore: index of the first exchange sent after the modifier swap (-1: none)
+	swappedBefore int
 }
 
 func actionFor(e exch, srv *modx.SrvConn) *modx.Action {
@@ -317,6 +409,7 @@ func actionFor(e exch, srv *modx.SrvConn) *modx.Action {
 	a.Srv = srv
 	a.ErrKind = e.E
 	a.API = e.A
+	a.Unflushed = e.U
 	switch e.B {
 	case "mutate":
 		a.Mutate = true
@@ -343,7 +436,33 @@ func connPrefix(x string) string {
 	return x
 }
 
-func runConn(g *modx.Rig, ci int, cs connSpec, out *connOut) {
+// barrier lets every connection of a case wait at its swap point; the last one
+// to arrive runs do (the modifier swap) before all are released.
+type barrier struct {
+	mu      sync.Mutex
+	n, seen int
+	ch      chan struct{}
+	do      func()
+}
+
+func (b *barrier) arrive() {
+	b.mu.Lock()
+	b.seen++
+	if b.seen == b.n {
+		b.do()
+		close(b.ch)
+	}
+	b.mu.Unlock()
+	<-b.ch
+}
+
+func runConn(g *modx.Rig, c c02Case, bar *barrier, ci int, cs connSpec, out *connOut) {
+	arrived := bar == nil
+	defer func() {
+		if !arrived {
+			bar.arrive()
+		}
+	}()
 	cl, err := g.Dial()
 	if err != nil {
 		out.harness = "dial: " + err.Error()
@@ -351,6 +470,17 @@ func runConn(g *modx.Rig, ci int, cs connSpec, out *connOut) {
 	}
 	out.cl = cl
 	for i, e := range cs.Ex {
+		if !arrived && i == cs.SwapAt {
+			// idle at the swap point: everything sent so far has been answered and
+			// the proxy is blocked reading this connection again
+			if !cl.AwaitIdle() {
+				out.harness = "connection not idle at the swap point"
+				return
+			}
+			arrived = true
+			bar.arrive()
+			out.swappedBefore = i
+		}
 		typ := typeOf(cs, i)
 		o := &xobs{conn: ci, pos: i, typ: typ, e: e}
 		out.obs = append(out.obs, o)
@@ -427,6 +557,7 @@ func runConn(g *modx.Rig, ci int, cs connSpec, out *connOut) {
 			case "connect":
 				// tunnel established: tear it down from both ends (no payload; see assumptions)
 				g.O.CloseHost(modx.Host(e.X))
+				g.O.CloseHost("x:" + e.X) // the tunnel through the downstream proxy, if that route is used
 				cl.Close()
 				return
 			}
@@ -467,7 +598,7 @@ func pathClass(e exch) string {
 }
 
 func runCase(r *vh.Run, ca *modx.CA, c c02Case) {
-	g, err := modx.NewRig(ca, modx.RigOpts{MITM: c.MITM, Transport: c.Transport, RoundTripper: c.RT, Listener: c.Lst})
+	g, err := modx.NewRig(ca, modx.RigOpts{MITM: c.MITM, Transport: c.Transport, RoundTripper: c.RT, Listener: c.Lst, Downstream: c.Down})
 	if err != nil {
 		r.Inconclusive("rig: "+err.Error(), nil)
 		return
@@ -482,15 +613,24 @@ func runCase(r *vh.Run, ca *modx.CA, c c02Case) {
 		if err := brw.Flush(); err != nil {
 			h.WriteErr = err.Error()
 		}
+		if h.Unflushed {
+			// a hijacker that returns with bytes still sitting in the writer it was
+			// handed: they are the hijacker's, the proxy must not write them
+			brw.WriteString("VH-UNFLUSHED " + call.XID + "\n")
+		}
 	}
 	outs := make([]*connOut, len(c.Conns))
 	var wg sync.WaitGroup
+	var bar *barrier
+	if c.Swap {
+		bar = &barrier{n: len(c.Conns), ch: make(chan struct{}), do: func() { g.SwapModifiers(2); r.Count("modifier_swaps", 1) }}
+	}
 	for ci := range c.Conns {
-		outs[ci] = &connOut{}
+		outs[ci] = &connOut{swappedBefore: -1}
 		wg.Add(1)
 		go func(ci int) {
 			defer wg.Done()
-			runConn(g, ci, c.Conns[ci], outs[ci])
+			runConn(g, c, bar, ci, c.Conns[ci], outs[ci])
 		}(ci)
 	}
 	wg.Wait()
@@ -691,13 +831,31 @@ func runCase(r *vh.Run, ca *modx.CA, c c02Case) {
 			if xo.idleLive {
 				r.Violation("C02:context-released:idle-connection", "the exchange's context was still retrievable after its response had been received and the proxy was already waiting for the next request on the open connection", wit(nil))
 			}
+			// the modifier pair installed when the request was read must run, no other
+			wantGen := 1
+			if o.swappedBefore >= 0 && xo.pos >= o.swappedBefore {
+				wantGen = 2
+			}
 			var rq, rs []modx.Call
 			for _, cc := range byX[e.X] {
+				if cc.Gen != wantGen {
+					r.Violation("C02:modifier-replaced:"+xo.typ, fmt.Sprintf("the %s modifier of generation %d ran for an exchange that was read while generation %d was installed (the setter had returned before the request was sent)", cc.Side, cc.Gen, wantGen), wit(nil))
+					continue
+				}
 				if cc.Side == "req" {
 					rq = append(rq, cc)
 				} else {
 					rs = append(rs, cc)
 				}
+			}
+			if c.Swap {
+				r.Class(fmt.Sprintf("swap/gen%d/%s/%s", wantGen, xo.typ, e.B))
+			}
+			if c.Down {
+				r.Class(fmt.Sprintf("downstream/%s/%s", xo.typ, e.B))
+			}
+			if e.U {
+				r.Class(fmt.Sprintf("hijack-unflushed/%s/%s", xo.typ, e.B))
 			}
 			hij := strings.HasPrefix(e.B, "hijack")
 			if !hij && xo.cerr != nil {
